@@ -154,6 +154,8 @@ pub fn check_vector(v: &Value) -> Result<Vec<Finding>, String> {
             (other, _) => {
                 if outcome == "ok" {
                     out.push(Finding { stage: "malformed-frame", field: "decode".into(), detail: format!("the encoder's own frame does not decode: {:?}", other) });
+                    // ... which is also a lost packet on the encode -> decode path (C01)
+                    out.push(Finding { stage: "roundtrip-typed", field: "decode".into(), detail: format!("encode then decode loses the packet: the encoder's own frame does not decode: {:?}", other) });
                 }
             },
         }
@@ -250,8 +252,22 @@ fn dec_event(mode: &str, buf: &[u8], tag: &str) -> Value {
             Err(_) => "err",
         };
     }
+    // "never reads beyond the announced frame": what follows the frame in the buffer must not influence the outcome -
+    // decode the removed frame on its own and compare class and packet
+    let mut ctx_ok = true;
+    if (res == "pkt" || res == "err") && after > 0 && after < before {
+        let frame = &buf[..before - after];
+        let mut alone = BytesMut::from(frame);
+        let r2 = std::panic::catch_unwind(std::panic::AssertUnwindSafe(|| codec.decode(&mut alone)));
+        ctx_ok = match (&r, &r2) {
+            (Ok(Ok(Some(p))), Ok(Ok(Some(q)))) => format!("{:?}", p) == format!("{:?}", q),
+            (Ok(Err(insim::Error::IO { .. })), _) | (_, Ok(Err(insim::Error::IO { .. }))) => false,
+            (Ok(Err(_)), Ok(Err(_))) => true,
+            _ => false,
+        };
+    }
     json!({"ev": "Dec", "mode": mode, "sb": buf.first().copied().unwrap_or(0), "len": before, "res": res, "after": after,
-           "rest_ok": rest_ok, "reenc": reenc, "tag": tag, "buf": buf})
+           "rest_ok": rest_ok, "ctx_ok": ctx_ok, "reenc": reenc, "tag": tag, "buf": buf})
 }
 
 /// wire-fuzz --vectors v.ndjson --out trace.ndjson --seed n --events k
@@ -299,7 +315,7 @@ pub fn cmd_wire_fuzz(a: &HashMap<String, String>) -> i32 {
                         }
                         let e = dec_event(mode, &buf, "hdr");
                         let k = (e["res"].as_str().unwrap().to_string(), e["after"].as_u64().unwrap() as usize);
-                        if !e["rest_ok"].as_bool().unwrap() || e["reenc"] == "panic" {
+                        if !e["rest_ok"].as_bool().unwrap() || !e["ctx_ok"].as_bool().unwrap() || e["reenc"] == "panic" {
                             worst = Some(e.clone());
                         }
                         if !seen.contains(&k) {
@@ -336,6 +352,28 @@ pub fn cmd_wire_fuzz(a: &HashMap<String, String>) -> i32 {
             }
             let seen_j: Vec<Value> = seen.iter().map(|(r, a)| json!({"res": r, "after": a})).collect();
             let _ = writeln!(w, "{}", json!({"ev": "Hdr", "mode": mode, "sb": base[0], "len": base.len(), "seen": seen_j, "kind": kind, "offset": off, "cases": 256}));
+            n += 1;
+        }
+    }
+    // 2b. every vector's frame with another valid frame behind it: the outcome must not depend on what follows
+    for (k, (mode, f)) in frames.iter().enumerate() {
+        let (_, g) = &frames[(k * 7 + 3) % frames.len()];
+        if frames[(k * 7 + 3) % frames.len()].0 != *mode {
+            continue;
+        }
+        let mut buf = f.clone();
+        buf.extend_from_slice(g);
+        let e = dec_event(mode, &buf, "followed");
+        let _ = writeln!(w, "{}", e);
+        n += 1;
+        // ... and a frame announced shorter than its kind's layout, followed by a valid frame
+        if f.len() >= 12 && k % 5 == 0 {
+            let cut = 4 * (1 + k % ((f.len() / 4) - 1));
+            let mut t = f[..cut].to_vec();
+            t[0] = crate::frames::size_byte(mode, cut);
+            t.extend_from_slice(g);
+            let e = dec_event(mode, &t, "short-announced");
+            let _ = writeln!(w, "{}", e);
             n += 1;
         }
     }
